@@ -175,3 +175,19 @@ contract("src/primaite/session/environment.py::PrimaiteGymEnv._write_step_metada
          ensures=[("action_and_reward_are_plain_ints", "isinstance(data['action'], int) and isinstance(data['reward'], int)"),
                   ("record_complete", "data['episode'] == self.episode_counter and data['step'] == step and data['state'] is state")],
          modifies=[], allocates=True)
+
+# ---- a red application whose host lost its database client must not take the step down (C01: actions aimed at missing components) -------------
+RS = "src/primaite/simulator/system/applications/red_applications/ransomware_script.py"
+from pyvc.contracts import ufun as _ufun  # noqa: E402
+_ufun("host_db_client_of", 1, "any")
+contract(f"{RS}::RansomwareScript._host_db_client", verify=False, note="software-manager lookup of the host's database client: None when it is not installed",
+         types={"return": "Optional[DatabaseClient]"},  # annotated `-> DatabaseClient`, but `software.get(...)` yields None for a missing client
+         # the same client (or None) every time it is asked within one call of the script
+         ensures=["result is cast(host_db_client_of(self), 'Optional[DatabaseClient]')"], modifies=[])
+contract(f"{RS}::RansomwareScript._establish_db_connection", verify=False, note="opens a connection through the database client (network exchange)",
+         ensures=[], modifies=["heap"], exact_events=True, allocates=True)
+contract("src/primaite/simulator/system/applications/database_client.py::DatabaseClientConnection.query", verify=False,
+         note="query over the simulated network", ensures=[], modifies=["heap"], exact_events=True, allocates=True)
+contract(f"{RS}::RansomwareScript._perform_ransomware_encrypt", props=["C01"],
+         ensures=[("no_client_no_attack", "implies(old(self._host_db_client) is None, result == False and unchanged())")],
+         modifies=["heap"], allocates=True)
